@@ -88,7 +88,12 @@ class C07(Check):
                 l = G.rtl(rng, vs, rng.randint(1, 6))
             if rng.random() < 0.3:
                 rng.shuffle(l)
-            out.append({"terms": l[:6], "ctx": ctx})
+            case = {"terms": l[:6], "ctx": ctx}
+            if ctx and rng.random() < 0.3:
+                used = sorted({v for t in l[:6] for v in t["c"]})
+                if used:
+                    case["prelude"] = rng.choice(used)
+            out.append(case)
         if tier == "thorough":
             # bounded-exhaustive: every ordered pair of rows over (a, b) with coefficients and constants in {-1, 0, 1}, without a
             # context and with every one-row context (14 400 cases)
@@ -114,6 +119,13 @@ class C07(Check):
             return {"ok": G.un_contract(c)}
         tl = G.mk_tl(case["terms"])
         ctx = None if case["ctx"] is None else G.mk_tl(case["ctx"])
+        if ctx is not None and case.get("prelude"):
+            # an unrelated-looking earlier use of an EQUAL list in an equal context (a relaxation that eliminates one of its
+            # variables, result discarded): with pure operations the simplification that follows cannot tell
+            try:
+                G.mk_tl(case["terms"]).elim_vars_by_relaxing(G.mk_tl(case["ctx"]), [case["prelude"]], simplify=True)
+            except Exception:  # noqa: BLE001  (its own outcome is C04's subject)
+                pass
         r = tl.simplify(ctx) if ctx is not None else tl.simplify()
         return {"ok": G.un_tl(r)}
 
